@@ -1605,7 +1605,12 @@ M2("c12-benign-exponent-in-a-local", "C12", "", [
 M2("c12-exponent-clamped", "C12", "R4.packaged-strategy-shape", [
     {"file": "retries.py", "old": "                * (config.backoff_rate ** (attempts_made - 1)),", "new": "                * (config.backoff_rate ** min(attempts_made - 1, 32)),"}])
 M("c09-counted-before-published", "C09", "R1.branch-outcome-bookkeeping", "concurrency/executor.py",
-  "            exe_state.complete(result)\n            self.counters.complete_task()\n", "            self.counters.complete_task()\n            exe_state.complete(result)\n")
+  "            with self._decision_lock:\n                exe_state.complete(result)\n                self.counters.complete_task()\n",
+  "            self.counters.complete_task()\n            exe_state.complete(result)\n", desc="r6_C09 on the tree before 6b4dbfe: counted before published, no common critical section")
+M("c09-benign-counted-before-published-inside-the-lock", "C09", "", "concurrency/executor.py",
+  "            with self._decision_lock:\n                exe_state.complete(result)\n                self.counters.complete_task()\n",
+  "            with self._decision_lock:\n                self.counters.complete_task()\n                exe_state.complete(result)\n", expect="silent",
+  desc="r6_C09 on the tree after 6b4dbfe: no decider can observe the order of the two writes")
 M("c18-strategy-str-unguarded", "C18", "R1.user-exception-text-is-guarded", "retries.py",
   """        try:
             error_message = str(error)
@@ -1777,3 +1782,15 @@ M2("c15-benign-lock-around-the-encoder-only", "C15", "", [
     {"file": "serdes.py", "old": "        encoded = self._codec.encode(value)\n        wrapped = self._to_json_serializable(encoded)\n        return json.dumps(wrapped, separators=(\",\", \":\"))",
      "new": "        import contextlib\n        with contextlib.nullcontext():\n            encoded = self._codec.encode(value)\n            wrapped = self._to_json_serializable(encoded)\n            return json.dumps(wrapped, separators=(\",\", \":\"))"}],
    expect="silent")
+_SUSPEND_FIRST_OLD = ("        with self._decision_lock:\n            if self.counters.should_complete():\n                self._completion_event.set()\n            else:\n"
+                      "                suspend_result = self.should_execution_suspend()\n                if suspend_result.should_suspend:\n"
+                      "                    self._suspend_exception = suspend_result.exception\n                    self._completion_event.set()\n")
+_SUSPEND_FIRST_NEW = ("        with self._decision_lock:\n            suspend_result = self.should_execution_suspend()\n            if suspend_result.should_suspend:\n"
+                      "                self._suspend_exception = suspend_result.exception\n                self._completion_event.set()\n"
+                      "            elif self.counters.should_complete():\n                self._completion_event.set()\n")
+M2("c09-benign-suspend-asked-first-with-second-look", "C09", "", [{"file": "concurrency/executor.py", "old": _SUSPEND_FIRST_OLD, "new": _SUSPEND_FIRST_NEW}], expect="silent",
+   desc="seed C09 on the tree after a134671: execute() looks at the policy again, the order of the two questions cannot change the outcome")
+M2("c09-suspend-asked-first-without-second-look", "C09", "R5.policy-decision-before-suspension", [
+    {"file": "concurrency/executor.py", "old": _SUSPEND_FIRST_OLD, "new": _SUSPEND_FIRST_NEW},
+    {"file": "concurrency/executor.py", "old": "                if self._suspend_exception and not decided:", "new": "                if self._suspend_exception:"}],
+   desc="seed C09 as it was: a decided operation suspends")
